@@ -644,13 +644,15 @@ class Poly2d:
 
     def __init__(self, cc: np.ndarray, A: Affine) -> None:
         assert cc.shape in [(3, 3, 2), (2, 2, 2)]
-        tol = 1e-6
         self._cc = cc
         self._A = A
         self._safe_to_grid = False
 
         sx, zx, tx, zy, sy, ty, *_ = A
-        if abs(zx) < tol and abs(zy) < tol:
+        # scale+translation shortcut only when there is no rotation/shear at all:
+        # an absolute tolerance here silently drops small off-diagonal terms, which are
+        # not small relative to a normalising scale of ``1/image_size``
+        if zx == 0 and zy == 0:
             self._norm = lambda x, y: (np.polyval([sx, tx], x), np.polyval([sy, ty], y))
             self._safe_to_grid = True
         else:
